@@ -284,11 +284,48 @@ def obligations_of(unit, fns):
     return obs
 
 
+_B2C = {}
+
+
+def byte_to_char(text, pos):
+    """rustc reports UTF-8 byte offsets; the parser works on Python str (code point) offsets."""
+    key = id(text)
+    if key not in _B2C:
+        b = text.encode("utf-8")
+        if len(b) == len(text):
+            _B2C[key] = None
+        else:
+            import bisect
+            # byte offset of every non-ASCII char and its extra length
+            offs, extra, bpos = [], [], 0
+            for ch in text:
+                n = len(ch.encode("utf-8"))
+                if n > 1:
+                    offs.append(bpos)
+                    extra.append(n - 1)
+                bpos += n
+            cum = []
+            t = 0
+            for e in extra:
+                t += e
+                cum.append(t)
+            _B2C[key] = (offs, cum)
+    tab = _B2C[key]
+    if tab is None:
+        return pos
+    import bisect
+    offs, cum = tab
+    i = bisect.bisect_left(offs, pos)  # non-ASCII chars starting strictly before pos
+    return pos - (cum[i - 1] if i > 0 else 0)
+
+
 def attribute(unit, fns, diag, text):
     """Map one diagnostic to (obligation id | None, fn qual | None)."""
-    spans = [s for s in diag.get("spans", []) if s.get("file_name", "").endswith(".rs") and "build" in s.get("file_name", "")]
+    spans = [dict(s) for s in diag.get("spans", []) if s.get("file_name", "").endswith(".rs") and "build" in s.get("file_name", "")]
     for ch in diag.get("children", []):
-        spans += [s for s in ch.get("spans", []) if "build" in s.get("file_name", "")]
+        spans += [dict(s) for s in ch.get("spans", []) if "build" in s.get("file_name", "")]
+    for s in spans:
+        s["byte_start"] = byte_to_char(text, s["byte_start"])
     msg = diag.get("message", "")
     prim = [s for s in spans if s.get("is_primary")] + [s for s in spans if not s.get("is_primary")]
 
